@@ -126,7 +126,7 @@ theorem not_poisoned {s : Site} (h : SInv s) (t : Word) : poisoned s t = false :
   apply List.any_eq_false.mpr
   intro p hp
   obtain ⟨r, hr, a, b, _⟩ := h2 p hp
-  have : s.docs.contains p.1 = true := by rw [← a]; exact List.contains_iff_mem.mpr (h4 r hr b)
+  have : p.1 ∈ s.docs := by rw [← a]; exact h4 r hr b
   simp [this]
 
 /-- **a search on a nested field returns exactly the children whose text matches** (the child is joined on
